@@ -1,4 +1,5 @@
 import TwistedProps.C09.Fifo
+import TwistedProps.C09.NonNeg
 /-!
 C09 — `task.Clock` runs scheduled calls exactly once, in time order.
 
@@ -17,13 +18,23 @@ i-th created call (or nothing yet).  All delays, resets and advances are arbitra
 (ticks), negative ones included.  `(run h).log` is the execution log, newest event first.
 Every theorem below is for ALL histories; the proofs are inductions over the atomic steps of the
 model (`TwistedProps/C09/Steps.lean`, `Lift.lean`), with the loop of `advance` handled by its
-measure (`Measure.lean`).
+measure (`Measure.lean`); `Guarded.lean` is the same induction for histories whose operation
+parameters are constrained (`ClosedG`), `NonNeg.lean` uses it to prove `causal`.
 
-Hypotheses.  Only `run_order_nondecreasing` has one: `causal` — no operation (re)schedules a call
-to a time earlier than the scheduled time of a call that already ran (decidable on the log).
-Without it the clause is false for every implementation (a running call may `delay(-x)` a pending
-one to before its own time: `order_needs_causal_counterexample`); what holds unconditionally is
-`advance_settles` + `never_runs_early` + the loop always taking the earliest pending call.
+Hypotheses.  Only `run_order_nondecreasing` / `pending_not_before_ran` / `run_pairs_ordered` have one:
+`causal` — no operation (re)schedules a call to a time earlier than the scheduled time of a call
+that already ran (decidable on the log).  It is *discharged* on the property's own domain:
+`causal_of_nonneg` proves it for every history in which no negative number is written (`NonNeg h`, a
+syntactic condition on the history: every `callLater` delay, `reset`/`delay` argument and
+`advance`/`pump` amount, at any nesting depth, is `≥ 0`), and `causal_of_admissible` for the larger
+class `Admissible h` (negative `delay()` arguments allowed as long as the call stays at or after
+`seconds()`; a computable function of the history, evaluated where each operation executes).  So
+`run_order_nondecreasing_nonneg`, `pending_not_before_ran_nonneg` and `run_pairs_ordered_nonneg`
+(time order, then creation order among same-time never-rescheduled calls) have no hypothesis on the
+execution at all.  Outside that domain the clause is false for every implementation (a running call
+may `delay(-x)` a pending one to before its own time: `order_needs_causal_counterexample`, which is
+neither `NonNeg` nor `Admissible`); what holds unconditionally there is `advance_settles` +
+`never_runs_early` + the loop always taking the earliest pending call.
 Outside the model (see `ASSUMES` in `harness/corr/C09.py`): callables that raise, re-entrant
 `advance`.
 -/
@@ -137,6 +148,57 @@ theorem pending_not_before_ran (h : List Top) (hc : causal (run h).log = true) :
     ∀ y ∈ runTimes (run h).log, ∀ i ∈ (run h).calls, y ≤ (run h).key i :=
   ((ordered_run h).2 hc).floor
 
+/-! ### … unconditionally for non-negative (more generally: admissible) histories -/
+
+/-- In an admissible history — every `callLater` delay, `reset` argument and `advance` amount `≥ 0`,
+    every effective `delay()` with a non-negative argument or leaving the call at or after the
+    clock's current time — no operation ever puts a call before one that already ran. -/
+theorem causal_of_admissible (h : List Top) (ha : Admissible h = true) : causal (run h).log = true :=
+  (fwd_run h ha).causal
+
+/-- The static corollary: a history in which no negative number is written is causal. -/
+theorem causal_of_nonneg (h : List Top) (hn : NonNeg h = true) : causal (run h).log = true :=
+  causal_of_admissible h (admissible_of_nonneg h hn)
+
+theorem nonneg_prefix (h1 h2 : List Top) (hn : NonNeg (h1 ++ h2) = true) : NonNeg h1 = true := by
+  unfold NonNeg at hn ⊢
+  rw [List.all_append, Bool.and_eq_true] at hn
+  exact hn.1
+
+/-- … at every point: after every prefix `h1` of a non-negative history, and at every earlier moment
+    of that run — between operations or in the middle of an `advance` (the log only grows at its
+    head, so those moments are the suffixes `older` of the log) — `causal` holds. -/
+theorem causal_at_every_point_nonneg (h1 h2 : List Top) (hn : NonNeg (h1 ++ h2) = true)
+    (newer older : List Ev) (hs : (run h1).log = newer ++ older) : causal older = true := by
+  have := causal_of_nonneg h1 (nonneg_prefix h1 h2 hn)
+  rw [hs] at this
+  exact causal_suffix newer older this
+
+/-- **Calls run in nondecreasing scheduled time** — for every history without negative numbers,
+    with no hypothesis about the execution. -/
+theorem run_order_nondecreasing_nonneg (h : List Top) (hn : NonNeg h = true) :
+    (runTimes (run h).log).Pairwise (· ≥ ·) :=
+  run_order_nondecreasing h (causal_of_nonneg h hn)
+
+theorem run_order_nondecreasing_admissible (h : List Top) (ha : Admissible h = true) :
+    (runTimes (run h).log).Pairwise (· ≥ ·) :=
+  run_order_nondecreasing h (causal_of_admissible h ha)
+
+/-- … and nothing still pending is scheduled earlier than any call that ran. -/
+theorem pending_not_before_ran_nonneg (h : List Top) (hn : NonNeg h = true) :
+    ∀ y ∈ runTimes (run h).log, ∀ i ∈ (run h).calls, y ≤ (run h).key i :=
+  pending_not_before_ran h (causal_of_nonneg h hn)
+
+theorem pending_not_before_ran_admissible (h : List Top) (ha : Admissible h = true) :
+    ∀ y ∈ runTimes (run h).log, ∀ i ∈ (run h).calls, y ≤ (run h).key i :=
+  pending_not_before_ran h (causal_of_admissible h ha)
+
+/-- … and every call that ran was scheduled no later than the clock's final time (the clock never
+    went back). -/
+theorem ran_not_after_now_admissible (h : List Top) (ha : Admissible h = true) :
+    ∀ y ∈ runTimes (run h).log, y ≤ (run h).now :=
+  (fwd_run h ha).past
+
 /-! ### same time, never rescheduled ⇒ creation order -/
 
 /-- If `i` was created before `j`, both by `callLater` for the same time `t`, and neither was ever
@@ -155,6 +217,58 @@ theorem same_time_unrescheduled_earlier_done (h : List Top) (i j : Nat) (t : Int
     (hui : unresched (run h).log i) (huj : unresched (run h).log j) (hr : ran (run h).log j) :
     i ∉ (run h).calls :=
   (fifo_run h).2.done i j hij ⟨t, hsi, hsj, hui, huj⟩ hr
+
+theorem runTimes_append (l1 l2 : List Ev) : runTimes (l1 ++ l2) = runTimes l1 ++ runTimes l2 := by
+  simp [runTimes, List.filterMap_append]
+
+/-- Both ordering clauses as one statement about any two calls that ran, `i` before `j` (the log is
+    newest first): `i` was scheduled no later than `j`, and if both were created by `callLater` for
+    the same time and never rescheduled then `i` was created first. -/
+theorem run_pairs_ordered (h : List Top) (hc : causal (run h).log = true)
+    (l1 l2 : List Ev) (i j : Nat) (ti tj ni nj : Int)
+    (hsplit : (run h).log = l1 ++ Ev.run j tj nj :: l2) (hi : Ev.run i ti ni ∈ l2) :
+    ti ≤ tj ∧ (SameSlot (run h).log i j → i < j) := by
+  constructor
+  · have hp := ((ordered_run h).2 hc).mono
+    rw [hsplit, runTimes_append] at hp
+    have h2 := (List.pairwise_append.1 hp).2.1
+    have h3 : runTimes (Ev.run j tj nj :: l2) = tj :: runTimes l2 := by simp [runTimes, runTime?]
+    rw [h3] at h2
+    have : ti ∈ runTimes l2 := by
+      unfold runTimes
+      rw [List.mem_filterMap]
+      exact ⟨_, hi, rfl⟩
+    exact (List.pairwise_cons.1 h2).1 ti this
+  · intro hs
+    have hne : i ≠ j := by
+      intro he
+      subst he
+      have hr := (inv_run h).runs i
+      have hle : runCount (run h).log i ≤ 1 := by rw [hr]; split <;> omega
+      rw [hsplit] at hle
+      unfold runCount at hle
+      rw [List.countP_append, List.countP_cons] at hle
+      have : 0 < List.countP (isRun i) l2 := List.countP_pos_iff.2 ⟨_, hi, by simp [isRun]⟩
+      simp [isRun] at hle
+      omega
+    rcases Nat.lt_or_gt_of_ne hne with hlt | hgt
+    · exact hlt
+    · exact absurd ⟨ti, ni, hi⟩ ((fifo_run h).2.before j i hgt hs.symm l1 l2 tj nj hsplit)
+
+/-- **Time order, then creation order** — for every history without negative numbers, with no
+    hypothesis about the execution (the creation-order half never needed one:
+    `same_time_unrescheduled_fifo`). -/
+theorem run_pairs_ordered_nonneg (h : List Top) (hn : NonNeg h = true)
+    (l1 l2 : List Ev) (i j : Nat) (ti tj ni nj : Int)
+    (hsplit : (run h).log = l1 ++ Ev.run j tj nj :: l2) (hi : Ev.run i ti ni ∈ l2) :
+    ti ≤ tj ∧ (SameSlot (run h).log i j → i < j) :=
+  run_pairs_ordered h (causal_of_nonneg h hn) l1 l2 i j ti tj ni nj hsplit hi
+
+theorem run_pairs_ordered_admissible (h : List Top) (ha : Admissible h = true)
+    (l1 l2 : List Ev) (i j : Nat) (ti tj ni nj : Int)
+    (hsplit : (run h).log = l1 ++ Ev.run j tj nj :: l2) (hi : Ev.run i ti ni ∈ l2) :
+    ti ≤ tj ∧ (SameSlot (run h).log i j → i < j) :=
+  run_pairs_ordered h (causal_of_admissible h ha) l1 l2 i j ti tj ni nj hsplit hi
 
 /-- Boolean test for `unresched` (used for the concrete example) -/
 theorem unresched_of_all (log : List Ev) (i : Nat)
@@ -205,6 +319,19 @@ example : Ev.sched 1 4 ∈ (run ex1).log ∧ Ev.sched 2 4 ∈ (run ex1).log ∧
     (`delay(negative)` is supported API; no scheduler can run #1 before #0 here.) -/
 def ex3 : List Top :=
   [ .script (.callLater 2 (.delay 1 (-7) .nil) (.callLater 8 .nil .nil)), .advance 10 ]
+
+/-- admissible but not `NonNeg`: #0@2, run by `advance 2`, delays #1 (due at 8) by −3 to 5 — still
+    after the clock's time 2; #1 then runs at 5 ≥ 2 -/
+def ex4 : List Top :=
+  [ .script (.callLater 2 (.delay 1 (-3) .nil) (.callLater 8 .nil .nil)), .advance 2, .advance 8 ]
+
+-- run_order_nondecreasing_nonneg / run_pairs_ordered_nonneg: `ex1` (nested scripts, a `delay()` from
+-- inside a call, same-time groups, five calls run over two advances) satisfies the static hypothesis
+example : NonNeg ex1 = true ∧ Admissible ex1 = true ∧ runTimes (run ex1).log = [5, 5, 4, 4, 2] := by decide
+-- run_order_nondecreasing_admissible: strictly larger domain
+example : NonNeg ex4 = false ∧ Admissible ex4 = true ∧ runTimes (run ex4).log = [5, 2] := by decide
+-- the counterexample below is outside both
+example : NonNeg ex3 = false ∧ Admissible ex3 = false := by decide
 
 theorem order_needs_causal_counterexample :
     causal (run ex3).log = false ∧ ¬ (runTimes (run ex3).log).Pairwise (· ≥ ·) := by
